@@ -16,5 +16,5 @@ mkdir -p /tmp/mrepo
 git -C /repo worktree add -q --detach "$M" HEAD || exit 2
 ( cd "$M" && git apply "$DIFF" ) || { echo "APPLY-FAILED in copy"; git -C /repo worktree remove --force "$M"; exit 2; }
 mkdir -p /tmp/mrepo/ev /tmp/mrepo/rp
-cd /verif && VERIF_EVIDENCE_DIR=/tmp/mrepo/ev VERIF_REPLAY_DIR=/tmp/mrepo/rp PJPLAN_REPO=$M ./check "$P" "$@" 2>/dev/null | grep -E "VIOLATION|HELD|VIOLATED|KNOWN|MACHINERY" | cut -c1-200 | head -6
+cd /verif && VERIF_EVIDENCE_DIR=/tmp/mrepo/ev VERIF_REPLAY_DIR=/tmp/mrepo/rp PJPLAN_REPO=$M ./check "$P" "$@" 2>/dev/null | grep -E "VIOLATION|HELD|VIOLATED|KNOWN|MACHINERY" | cut -c1-200 | awk '/^VIOLATION/{v++; if (v<=3) print; next} {print}'
 git -C /repo worktree remove --force "$M"
